@@ -306,6 +306,16 @@ func (g *gen) stmt(e env, budget int) []zn.Stmt {
 		if nn > 0 {
 			body = append(body, &zn.ExprStmt{E: &zn.Call{Name: "显示", Args: append([]zn.Expr{&zn.Str{V: "it"}}, shown...)}})
 		}
+		if nn >= 1 && g.pick(3, "loopvar-inplace") == 0 {
+			// a loop variable (index / key or value) changed IN PLACE by the body: it belongs to
+			// this pass only - the next pass, and every later loop, gets its own index and item
+			lv := fe.Names[g.pick(nn, "lvi")]
+			if !(isDict && nn == 2 && lv == fe.Names[0]) { // (dictionary keys are texts)
+				body = append(body, &zn.ExprStmt{E: &zn.MCall{Root: &zn.Var{Name: lv}, Chain: []zn.Call{{Name: []string{"自增", "自减"}[g.pick(2, "incdec")], Args: []zn.Expr{numE(float64(1 + g.pick(40, "delta")))}}}}},
+					&zn.ExprStmt{E: &zn.Call{Name: "显示", Args: append([]zn.Expr{&zn.Str{V: "changed"}}, shown...)}})
+				g.labels["loop-variable-changed-in-place"] = true
+			}
+		}
 		if mutate != "" {
 			if g.pick(2, "mutkind") == 0 {
 				body = append(body, &zn.ExprStmt{E: &zn.MCall{Root: &zn.Var{Name: mutate}, Chain: []zn.Call{{Name: "移除", Args: []zn.Expr{&zn.Var{Name: fe.Names[0]}}}}}})
